@@ -181,32 +181,91 @@ def _range_backend(ctx: Ctx, rel: str, cls: str, request_pred, carrier) -> Optio
         ctx.need(lab is not None, f'{where}: test on `{length}` not recognised: `{g.nodes[nid].text()}`')
     results: List[Tuple[Optional[bool], List[strparts.Part], str]] = []
     Env = Dict[str, List[strparts.Part]]
+    fparams = {a.arg for a in fn.args.posonlyargs + fn.args.args + fn.args.kwonlyargs}
+
+    def stringy(e: ast.AST, env: Env) -> bool:
+        """Does the expression build a string (so that `+` concatenates)?  An integer expression (`start + (length - 1)`) does not."""
+        if isinstance(e, ast.Constant):
+            return isinstance(e.value, str)
+        if isinstance(e, ast.JoinedStr):
+            return True
+        if isinstance(e, ast.Call):
+            return pf.dotted(e.func) == 'str' or (isinstance(e.func, ast.Attribute) and e.func.attr in ('format', 'join') and isinstance(e.func.value, ast.Constant))
+        if isinstance(e, ast.Name):
+            v = env.get(e.id)
+            return v is not None and not (len(v) == 1 and v[0][0] == 'expr')
+        if isinstance(e, ast.BinOp) and isinstance(e.op, ast.Add):
+            return stringy(e.left, env) or stringy(e.right, env)
+        if isinstance(e, ast.BinOp) and isinstance(e.op, ast.Mod):
+            return isinstance(e.left, ast.Constant) and isinstance(e.left.value, str)
+        return False
 
     def ev(e: ast.AST, env: Env) -> List[strparts.Part]:
         out: List[strparts.Part] = []
+        if not stringy(e, env):
+            return [('expr', _subst_ints(pf.nsrc(e), env))]
         for kind, txt in strparts.parts(c23norm.strnorm(e)):
             if kind == 'expr' and txt in env:
                 out += env[txt]
+            elif kind == 'expr' and txt.isidentifier() and txt not in fparams and txt not in pf.assignments(fn) and _module_str(m, txt) is not None:
+                out.append(('lit', _module_str(m, txt)))  # a module-level string constant (`_RANGE_UNIT = 'bytes'`)
             elif kind == 'expr':
-                out.append(('expr', _subst_ints(txt, env)))
+                t2 = _subst_ints(txt, env)
+                if t2 != txt and any(w in t2 for w in ('.join(', '.format(', ' % ')):
+                    # a string-building call over a local that has just been substituted (`''.join(pieces)`)
+                    try:
+                        sub = strparts.parts(c23norm.strnorm(strparts.expr_of(t2)))
+                    except (AnalysisError, SyntaxError):
+                        sub = [('expr', t2)]
+                    out += sub
+                else:
+                    out.append(('expr', t2))
             else:
                 out.append((kind, txt))
-        # merge literals
+        # merge literals (an empty literal marks "this is a string", so that `str(a) + str(b)` is not read as an integer sum later)
         merged: List[strparts.Part] = []
         for p in out:
             if p[0] == 'lit' and merged and merged[-1][0] == 'lit':
                 merged[-1] = ('lit', merged[-1][1] + p[1])
-            else:
+            elif not (p[0] == 'lit' and p[1] == '' and merged):
                 merged.append(p)
+        if len(merged) == 1 and merged[0][0] == 'expr':
+            merged.insert(0, ('lit', ''))
         return merged
 
     def walk(n: pf.Node, env: Env, given: Optional[bool], seen: Tuple[int, ...], depth: int) -> None:
         ctx.need(depth < 200 and len(results) < 64, f'{where}: too many paths')
+        via = ' / '.join(g.nodes[i].text() for i in seen if g.nodes[i].kind == 'test')
         if n is REQ:
-            results.append((given, ev(val, env), ' / '.join(g.nodes[i].text() for i in seen if g.nodes[i].kind == 'test')))
+            vv = pf.resolve_expr(fn, val) if isinstance(val, ast.Name) and val.id not in env else val
+            lab0 = _given_label(vv.test, length) if isinstance(vv, ast.IfExp) else None
+            if lab0 is not None:
+                # `Range=A if length is None else B`: one case per branch
+                for bv, is_given in ((vv.body, lab0 == 'T'), (vv.orelse, lab0 != 'T')):
+                    if given is None or given == is_given:
+                        results.append((is_given, ev(bv, env), via))
+                return
+            results.append((given, ev(val, env), via))
             return
         a = n.ast
         env2 = env
+        if n.kind == 'stmt' and isinstance(a, (ast.Assign, ast.AnnAssign)) and isinstance(getattr(a, 'value', None), ast.IfExp) and _given_label(a.value.test, length) is not None \
+                and all(isinstance(t, ast.Name) for t in (a.targets if isinstance(a, ast.Assign) else [a.target])):
+            # `x = A if length is None else B` is the if-statement with two assignments: one path per branch
+            tg = [t.id for t in (a.targets if isinstance(a, ast.Assign) else [a.target])]  # type: ignore[union-attr]
+            lab1 = _given_label(a.value.test, length)
+            for bv, is_given in ((a.value.body, lab1 == 'T'), (a.value.orelse, lab1 != 'T')):
+                if given is not None and given != is_given:
+                    continue
+                try:
+                    v1 = ev(bv, env)
+                except AnalysisError:
+                    v1 = [('expr', f'<{tg[0]}: not followed>')]
+                for nxt, lab in n.succ:
+                    if lab == 'exc' or nxt is g.raise_exit or nxt.id in seen:
+                        continue
+                    walk(nxt, {**env, **{t: v1 for t in tg}}, is_given, seen + (n.id,), depth + 1)
+            return
         if n.kind == 'stmt' and isinstance(a, (ast.Assign, ast.AnnAssign)) and getattr(a, 'value', None) is not None \
                 and all(isinstance(t, ast.Name) for t in (a.targets if isinstance(a, ast.Assign) else [a.target])):
             tg = [t.id for t in (a.targets if isinstance(a, ast.Assign) else [a.target])]  # type: ignore[union-attr]
@@ -261,6 +320,16 @@ def _range_backend(ctx: Ctx, rel: str, cls: str, request_pred, carrier) -> Optio
     return req
 
 
+def _module_str(m: pf.Module, name: str) -> Optional[str]:
+    """The value of a module-level name bound exactly once, to a string literal."""
+    vals = [st.value for st in m.tree.body if (isinstance(st, ast.Assign) and any(isinstance(t, ast.Name) and t.id == name for t in st.targets))
+            or (isinstance(st, ast.AnnAssign) and isinstance(st.target, ast.Name) and st.target.id == name and st.value is not None)]
+    stores = [x for x in ast.walk(m.tree) if isinstance(x, ast.Name) and x.id == name and isinstance(x.ctx, (ast.Store, ast.Del))]
+    if len(vals) == 1 and len(stores) == 1 and isinstance(vals[0], ast.Constant) and isinstance(vals[0].value, str):
+        return vals[0].value
+    return None
+
+
 def _subst_ints(txt: str, env: Dict[str, List[strparts.Part]]) -> str:
     """Source text of an integer expression with the locals that hold ONE expression replaced by it (`last = start + length - 1`)."""
     try:
@@ -291,6 +360,7 @@ def _range_template_problem(ps: List[strparts.Part], start: str, length: str, gi
     of it could not be resolved to literal text and integer expressions over the parameters (then nothing is known about what is sent)."""
     allowed = {start, length, *deferred}
     rp: List[Tuple[str, object]] = []
+    ps = [p_ for p_ in ps if p_ != ('lit', '')]
     for kind, txt in ps:
         if kind == 'lit':
             rp.append(('lit', txt))
@@ -1049,25 +1119,69 @@ def _truncating_wrapper(ctx: Ctx, m: pf.Module) -> None:
                 defs = [st for st in _stmts(rd) if isinstance(st, ast.Assign) and len(st.targets) == 1 and isinstance(st.targets[0], ast.Name) and st.targets[0].id == av]
                 other = [v for v in pf.assignments(rd).get(av, []) if not isinstance(v, ast.arg) and not any(v is d.value for d in defs)]
                 ctx.need(not other, f'{mwhere}: `{av}` is bound in a way that is not recognised')
-                bad_defs, undecided = [], []
-                for d in defs:
-                    # the count being defined may mention its own previous value (`n = min(remaining, n)`): only OTHER locals are expanded
-                    v, why = _cap_verdict(_expand_except(rd, d.value, av), remaining, {}, known)
-                    if v is False:
-                        bad_defs.append((d, why))
-                    elif v is None:
-                        undecided.append(why)
-                capped = bool(defs) and rg.dominated_by(RD, lambda n: any(n.ast is d for d in defs))
-                if bad_defs:
-                    ctx.bad('R2', cap_cons, f'`{pf.nsrc(bad_defs[0][0])}` is not `{A_lim} - {A_off}` or `min({A_lim} - {A_off}, {nparam})` ({bad_defs[0][1]}): '
-                            f'the read can pass the end of the range - {beyond}', m.path, bad_defs[0][0].lineno)
-                elif not capped:
-                    # on a path without a definition the count is the caller's argument itself
-                    ctx.need(av in params, f'{mwhere}: `{av}` is not defined on every path to `{pf.nsrc(call)}`; not recognised')
-                    ctx.bad('R2', cap_cons, f'there is a path to `{pf.nsrc(call)}` on which `{av}` is not capped by the remaining bytes: {beyond}', m.path, rd.lineno)
+                # path by path: the count at the read is its last definition on the path, or the caller's argument constrained by the tests passed
+                stores = [x for x in rg.nodes if x.ast is not None and x.kind == 'stmt' and isinstance(x.ast, (ast.Assign, ast.AugAssign, ast.AnnAssign))
+                          and any(pf.nsrc(t) in (A_lim, A_off) for t in (x.ast.targets if isinstance(x.ast, ast.Assign) else [x.ast.target]))]
+                ctx.need(not any(RD.id in rg.reachable_from(x) for x in stores), f'{mwhere}: {A_lim} / {A_off} change before `{pf.nsrc(call)}`; not analysed')
+                verdicts: List[Tuple[Optional[bool], str, int]] = []
+
+                def facts(t: ast.AST, truth: bool) -> List['linform.Lin']:
+                    """integer facts `L <= 0` implied by the test having this truth value"""
+                    if isinstance(t, ast.UnaryOp) and isinstance(t.op, ast.Not):
+                        return facts(t.operand, not truth)
+                    if isinstance(t, ast.BoolOp):
+                        if isinstance(t.op, ast.And) == truth:
+                            return [x for v in t.values for x in facts(v, truth)]
+                        return []
+                    if isinstance(t, ast.Compare) and len(t.ops) == 1 and isinstance(t.ops[0], (ast.Lt, ast.LtE, ast.Gt, ast.GtE)):
+                        try:
+                            tt = _expand_except(rd, t, av)
+                            return [linform.cmp_le0(tt if truth else ast.UnaryOp(op=ast.Not(), operand=tt))]
+                        except AnalysisError:
+                            return []
+                    return []
+
+                def count_walk(x: pf.Node, cur: Optional[ast.Assign], known_facts: Tuple['linform.Lin', ...], tested: bool, seen: Tuple[int, ...]) -> None:
+                    ctx.need(len(seen) < 200 and len(verdicts) < 64, f'{mwhere}: too many paths')
+                    if x is RD:
+                        if cur is not None:
+                            # the count being defined may mention its own previous value (`n = min(remaining, n)`): only OTHER locals are expanded
+                            v, why = _cap_verdict(_expand_except(rd, cur.value, av), remaining, {}, known)
+                            verdicts.append((v, f'`{pf.nsrc(cur)}` is not `{A_lim} - {A_off}` or `min({A_lim} - {A_off}, {nparam})` ({why})', cur.lineno))
+                            return
+                        if av not in params:
+                            verdicts.append((None, f'`{av}` is not defined on every path to `{pf.nsrc(call)}`', rd.lineno))
+                            return
+                        gap = linform.sym(av) - remaining
+                        if any((gap - L).is_const() and (gap - L).const <= 0 for L in known_facts):
+                            verdicts.append((True, '', rd.lineno))
+                        elif tested:
+                            verdicts.append((None, f'on a path without a definition `{av}` is compared with another quantity; whether that caps it is not analysed', rd.lineno))
+                        else:
+                            verdicts.append((False, f'there is a path to `{pf.nsrc(call)}` on which `{av}` is the caller\'s argument, not capped by the remaining bytes', rd.lineno))
+                        return
+                    cur2 = cur
+                    if any(x.ast is d for d in defs):
+                        cur2 = x.ast  # type: ignore[assignment]
+                    for nxt, lab in x.succ:
+                        if lab == 'exc' or nxt is rg.raise_exit or nxt.id in seen:
+                            continue
+                        f2, t2 = known_facts, tested
+                        if x.kind == 'test' and x.ast is not None and lab in ('T', 'F') and cur2 is None and av in pf.names_in(x.ast):
+                            f2 = known_facts + tuple(facts(x.ast, lab == 'T'))
+                            t2 = tested or any(isinstance(c, ast.Compare) and av in pf.names_in(c) and not all(isinstance(o, ast.Constant) or pf.nsrc(o) in (av, '-1')
+                                                                                                           for o in [c.left] + c.comparators) for c in ast.walk(x.ast))
+                        count_walk(nxt, cur2, f2, t2, seen + (x.id,))
+
+                count_walk(rg.entry, None, (), False, ())
+                ctx.need(verdicts, f'{mwhere}: no path to `{pf.nsrc(call)}`')
+                wrong = [v for v in verdicts if v[0] is False]
+                if wrong:
+                    ctx.bad('R2', cap_cons, f'{wrong[0][1]}: the read can pass the end of the range - {beyond}', m.path, wrong[0][2])
                 else:
-                    ctx.need(not undecided, f'{mwhere}: {undecided[0] if undecided else ""}')
-                    ctx.ok('R2', cap_cons, {'count': av, 'definitions': [pf.nsrc(d) for d in defs]})
+                    open_ = [v for v in verdicts if v[0] is None]
+                    ctx.need(not open_, f'{mwhere}: {open_[0][1] if open_ else ""}')
+                    ctx.ok('R2', cap_cons, {'count': av, 'definitions': [pf.nsrc(d) for d in defs], 'paths': len(verdicts)})
             else:
                 v, why = _cap_verdict(pf.expand_locals(rd, call.args[0]), remaining, {}, known)
                 ctx.need(v is not None, f'{mwhere}: {why}')
@@ -1150,20 +1264,26 @@ def _names(fn: pf.FuncDef, e: ast.AST, name: str, depth: int = 4) -> bool:
     return False
 
 
-def _expand_except(fn: pf.FuncDef, e: ast.AST, keep: str) -> ast.AST:
-    """pf.expand_locals, but the name `keep` stays as it is."""
+def _expand_except(fn: pf.FuncDef, e: ast.AST, keep: str, depth: int = 4) -> ast.AST:
+    """pf.expand_locals (single-definition locals replaced by their defining expression), but the name `keep` stays as it is - at every depth."""
     import copy
+    params = {a.arg for a in fn.args.posonlyargs + fn.args.args + fn.args.kwonlyargs}
 
     class S(ast.NodeTransformer):
+        def __init__(self, d: int):
+            self.d = d
+
         def visit_Name(self, node: ast.Name):
-            if node.id == keep or not isinstance(node.ctx, ast.Load):
+            if node.id == keep or node.id in params or not isinstance(node.ctx, ast.Load) or self.d <= 0:
                 return node
-            x = pf.expand_locals(fn, node)
-            return copy.deepcopy(x) if x is not node else node
+            dd = pf.single_def(fn, node.id)
+            if dd is not None and isinstance(dd, ast.expr) and not isinstance(dd, (ast.Await, ast.Yield, ast.YieldFrom)):
+                return S(self.d - 1).visit(copy.deepcopy(dd))
+            return node
 
         def visit_Lambda(self, node):
             return node
-    return S().visit(copy.deepcopy(e))
+    return S(depth).visit(copy.deepcopy(e))
 
 
 def _router(ctx: Ctx) -> None:
@@ -1203,6 +1323,21 @@ def _with_call(fn: pf.FuncDef, attr: str) -> Optional[Tuple[ast.Call, Optional[s
                 v = st.items[0].optional_vars
                 return e, (v.id if isinstance(v, ast.Name) else None), st
     return None
+
+
+def _with_returns(fn: pf.FuncDef, wst: ast.AST) -> List[ast.Return]:
+    """The returns of a with block - or, when the block only binds its result (`data = await f.read()`) and the function returns that local
+    afterwards, a synthetic `return <the bound expression>`."""
+    rets = [st for st in ast.walk(wst) if isinstance(st, ast.Return)]
+    if rets:
+        return rets
+    out: List[ast.Return] = []
+    for st in _stmts(fn):
+        if isinstance(st, ast.Return) and isinstance(st.value, ast.Name):
+            d = pf.single_def(fn, st.value.id)
+            if isinstance(d, ast.expr) and any(d is x for x in ast.walk(wst)):
+                out.append(ast.copy_location(ast.Return(value=d), st))
+    return out
 
 
 def _flag_paths(ctx: Ctx, fn: pf.FuncDef, where: str, flag: str, goal: ast.AST, exprs: List[Optional[ast.AST]], params: List[str]
@@ -1519,6 +1654,51 @@ def _exact_read_loops(ctx: Ctx, mm: pf.Module, qual: str, f: Optional[pf.FuncDef
                  f'{where}: `{r.text()}` does not return the data collected in `{data}`')
 
 
+def _truth_when_zero(t: ast.AST, name: str) -> Optional[bool]:
+    """Truth of a test for the abstract case `name == 0` (an int); None when the test does not only depend on that."""
+    if isinstance(t, ast.UnaryOp) and isinstance(t.op, ast.Not):
+        v = _truth_when_zero(t.operand, name)
+        return None if v is None else not v
+    if isinstance(t, ast.BoolOp):
+        vs = [_truth_when_zero(x, name) for x in t.values]
+        if isinstance(t.op, ast.And):
+            return False if any(v is False for v in vs) else (True if all(v is True for v in vs) else None)
+        return True if any(v is True for v in vs) else (False if all(v is False for v in vs) else None)
+    if isinstance(t, ast.Name) and t.id == name:
+        return False
+    if isinstance(t, ast.Compare) and len(t.ops) == 1:
+        l, r, op = t.left, t.comparators[0], t.ops[0]
+        if isinstance(l, ast.Name) and l.id == name and isinstance(r, ast.Constant) and r.value is None and isinstance(op, (ast.Is, ast.IsNot, ast.Eq, ast.NotEq)):
+            return isinstance(op, (ast.IsNot, ast.NotEq))
+
+        def ival(x: ast.AST) -> Optional[int]:
+            if isinstance(x, ast.Name) and x.id == name:
+                return 0
+            if isinstance(x, ast.Constant) and isinstance(x.value, int) and not isinstance(x.value, bool):
+                return x.value
+            if isinstance(x, ast.UnaryOp) and isinstance(x.op, ast.USub):
+                v = ival(x.operand)
+                return None if v is None else -v
+            return None
+        a, b = ival(l), ival(r)
+        if a is None or b is None or pf.names_in(t) != {name}:
+            return None
+        table = {ast.Eq: a == b, ast.NotEq: a != b, ast.Lt: a < b, ast.LtE: a <= b, ast.Gt: a > b, ast.GtE: a >= b}
+        return table.get(type(op))
+    return None
+
+
+def _reaches_without_zero(g: pf.CFG, n: pf.Node, ztests: Dict[int, Optional[bool]]) -> bool:
+    """Is `n` reachable on a path that takes, at some test of the length, the edge the empty case does NOT take?"""
+    for zid, tv in ztests.items():
+        Z = g.nodes[zid]
+        for nxt, lab in Z.succ:
+            if lab in ('T', 'F') and (lab == 'T') != tv:
+                if nxt is n or n.id in g.reachable_from(nxt):
+                    return True
+    return False
+
+
 def _inline_private(m: pf.Module, cls_name: str, target: str) -> Tuple[pf.Module, pf.FuncDef, List[str]]:
     """Method `target` of `cls_name` with the calls to private, concrete helper methods of the same class inlined (engines/inline), provided
     no class under hailtop redefines the helper (then the call is not dynamic dispatch in disguise).  Everything else stays a call.
@@ -1571,9 +1751,14 @@ def _front(ctx: Ctx, stream_verdicts: Optional[Dict[str, bool]] = None) -> None:
     wc = _with_call(fn, 'open_from')
     ctx.need(wc is not None and wc[1] is not None, f'{where}: `async with await self.open_from(...) as f` not found')
     oc, fv, wst = wc  # type: ignore[misc]
-    lk = [k.value for k in oc.keywords if k.arg == 'length']
-    ctx.need(len(lk) == 1 and [pf.nsrc(x) for x in oc.args] == [url, start], f'{where}: `{pf.nsrc(oc)}` is not open_from({url}, {start}, length=…)')
-    rets = [st for st in ast.walk(wst) if isinstance(st, ast.Return)]
+    odecl = m.func('AsyncFS.open_from')
+    oparams0 = [x.arg for x in odecl.args.args][1:] + [x.arg for x in odecl.args.kwonlyargs]
+    ob0 = _bind_args(oc, oparams0[:2])
+    ctx.need(len(oparams0) == 3 and ob0 is not None and set(ob0) == set(oparams0), f'{where}: `{pf.nsrc(oc)}` is not open_from({url}, {start}, length=…)')
+    lk = [ob0[oparams0[2]]]  # type: ignore[index]
+    ctx.need(_unchanged(fn, ob0[oparams0[0]], url) is True and _unchanged(fn, ob0[oparams0[1]], start) is True,  # type: ignore[index]
+             f'{where}: `{pf.nsrc(oc)}` is not open_from({url}, {start}, length=…)')
+    rets = _with_returns(fn, wst)
     ctx.need(len(rets) == 1, f'{where}: expected one return inside the with block')
     rc = rets[0].value.value if isinstance(rets[0].value, ast.Await) else rets[0].value
     ctx.need(isinstance(rc, ast.Call) and isinstance(rc.func, ast.Attribute) and pf.nsrc(rc.func.value) == fv, f'{where}: return is not a read on `{fv}`')
@@ -1607,7 +1792,7 @@ def _front(ctx: Ctx, stream_verdicts: Optional[Dict[str, bool]] = None) -> None:
     wc = _with_call(fn, 'open_from')
     ctx.need(wc is not None and len(a) == 3, f'{where}: shape changed')
     oc, fv, wst = wc  # type: ignore[misc]
-    rets = [st for st in ast.walk(wst) if isinstance(st, ast.Return)]
+    rets = _with_returns(fn, wst)
     ctx.need(len(rets) == 1, f'{where}: expected one return')
     rc = rets[0].value.value if isinstance(rets[0].value, ast.Await) else rets[0].value
     ctx.need(isinstance(rc, ast.Call) and isinstance(rc.func, ast.Attribute) and pf.nsrc(rc.func.value) == fv and not rc.keywords
@@ -1678,23 +1863,29 @@ def _front(ctx: Ctx, stream_verdicts: Optional[Dict[str, bool]] = None) -> None:
             if all(sv_[w] for w in wrappers):
                 raise AnalysisError(f'{where}: the stream of every back end is wrapped in {wrappers}; read(-1) of the wrapper was decided (R6), its bounded-read / readexactly accounting is not analysed')
             ctx.ok('R3', rcons, f'wrapped in {wrappers}: see R6', nontrivial=False)
-    zero = [n for n in g.nodes if n.kind == 'test' and isinstance(n.ast, ast.Compare) and len(n.ast.ops) == 1 and pf.nsrc(n.ast.left) == length
-            and isinstance(n.ast.comparators[0], ast.Constant) and n.ast.comparators[0].value == 0 and not isinstance(n.ast.comparators[0].value, bool)
-            and isinstance(n.ast.ops[0], (ast.Eq, ast.NotEq))]
+    # the abstract case "length == 0": every test that mentions the length is decided for it (declined when it cannot be); what is reachable
+    # along the consistent edges is what an empty range executes
+    ztests = {n.id: _truth_when_zero(n.ast, length) for n in g.nodes if n.kind == 'test' and n.ast is not None and length in pf.names_in(n.ast)}
+    for nid, tv in ztests.items():
+        ctx.need(tv is not None, f'{where}: test `{g.nodes[nid].text()}` not decided for {length} == 0')
+    ctx.need(len(pf.assignments(fn).get(length, [])) == 1, f'{where}: `{length}` is rebound; not recognised')
+
+    def zero_edge(a0: pf.Node, b0: pf.Node, lab: str) -> bool:
+        return not (a0.id in ztests and lab in ('T', 'F') and (lab == 'T') != ztests[a0.id])
+
+    zreach = g.reachable_from(g.entry, edge_ok=zero_edge)
     zcons = f'{where}::length == 0 never reaches _open_from'
-    if not zero:
+    if not ztests:
         ctx.bad('R3', zcons, f'no `{length} == 0` short-circuit: an empty range is sent to the back ends, which build `bytes={{{start}}}-{{{start} - 1}}` / a zero-length '
                 f'truncated stream', m.path, fn.lineno)
     else:
-        ctx.need(len(zero) == 1, f'{where}: several zero tests')
-        Z = zero[0]
-        zl = 'T' if isinstance(Z.ast.ops[0], ast.Eq) else 'F'  # type: ignore[attr-defined]
-        p = g.path_avoiding(Z, lambda n: n is DN, lambda n: False, edge_ok=lambda a, b, lab: a is not Z or lab == zl)
-        dom = g.dominated_by(DN, lambda n: n is Z)
-        ctx.check(p is None and dom, 'R3', zcons, f'with `{length} == 0` the call `{pf.nsrc(dc)}` is still reachable', m.path, Z.lineno)
+        Z = g.nodes[sorted(ztests)[0]]
+        ctx.check(DN.id not in zreach, 'R3', zcons, f'with `{length} == 0` the call `{pf.nsrc(dc)}` is still reachable', m.path, Z.lineno)
         # the empty case returns an empty stream for an existing file
-        zreach = g.reachable_from(Z, edge_ok=lambda a, b, lab: a is not Z or lab == zl)
-        zrets = [n for n in g.nodes if n.kind == 'return' and n.id in zreach and n is not DN and n is not Z]
+        zrets = [n for n in g.nodes if n.kind == 'return' and n.id in zreach and n is not DN]
+        # returns that only the empty case can reach, unless every return is shared (then they are judged together)
+        zonly = [n for n in zrets if not _reaches_without_zero(g, n, ztests)]
+        zrets = zonly or zrets
         zvals = [pf.expand_locals(fn, n.ast.value) if getattr(n.ast, 'value', None) is not None else None for n in zrets]  # type: ignore[union-attr]
         zvals = [v.value if isinstance(v, ast.Await) else v for v in zvals]
         econs = f'{where}::empty range yields an empty stream'
@@ -1757,9 +1948,25 @@ def _front(ctx: Ctx, stream_verdicts: Optional[Dict[str, bool]] = None) -> None:
             if not (isinstance(vv, ast.Call) and pf.dotted(vv.func) == 'self.read' and [pf.nsrc(a) for a in vv.args] == [nparam] and not vv.keywords):
                 continue
             guards = [x for x in ast.walk(f) if isinstance(x, ast.If) and any(r in x.body for r in raises)]
+            negate = False
+            if not guards:
+                # guard clause the other way round: `if <complete>: return data` directly followed by the raise
+                for blk in [f.body] + [getattr(x, fld) for x in ast.walk(f) for fld in ('body', 'orelse') if isinstance(getattr(x, fld, None), list) and x is not f]:
+                    for i, st0 in enumerate(blk[:-1]):
+                        if isinstance(st0, ast.If) and not st0.orelse and st0.body and isinstance(st0.body[-1], ast.Return) and blk[i + 1] in raises:
+                            guards.append(st0)
+                            negate = True
             if len(guards) != 1 or any(isinstance(x, ast.While) for x in pf.walk_shallow(f)):
                 continue
             t = _expand_except(f, guards[0].test, name)
+            if negate:
+                flip = {ast.Eq: ast.NotEq, ast.NotEq: ast.Eq, ast.Lt: ast.GtE, ast.GtE: ast.Lt, ast.Gt: ast.LtE, ast.LtE: ast.Gt}
+                if isinstance(t, ast.UnaryOp) and isinstance(t.op, ast.Not):
+                    t = t.operand
+                elif isinstance(t, ast.Compare) and len(t.ops) == 1 and type(t.ops[0]) in flip:
+                    t = ast.Compare(left=t.left, ops=[flip[type(t.ops[0])]()], comparators=t.comparators)
+                else:
+                    continue
             cons = f'{rel}::{qual}::short read test'
             want = linform.sym(f'len({name})') - linform.sym(nparam)
             ctx.need(isinstance(t, ast.Compare) and len(t.ops) == 1, f'{rel}::{qual}: short-read test `{pf.nsrc(t)}` not recognised')
